@@ -21,7 +21,32 @@ Inductive fobs :=
 | FErr
 | FOk (f1 : list N) (o1 : obs) (f2 : option (list N)).
 
-Record case := { c_text : list N; c_doc : bool; c_obs : obs; c_fmt : fobs }.
+Record tcase := { c_text : list N; c_doc : bool; c_obs : obs; c_fmt : fobs }.
+
+(* A long file (4-205 KiB), written as line numbers of a dictionary of its distinct lines (UTF-8
+   bytes; every line ends with a line feed), with what came out of
+     l_file  : `okane format FILE` on a real file holding the text,
+     l_again : `okane format` on a file holding that output,
+     l_reads : FormatOptions::format through a reader that returns at most k bytes per read
+               (k = 0: a changing pattern),
+     l_ref   : the printing (DisplayContext::default, one line feed after each entry) of the
+               entries parse_ledger yields on the text as a string in memory - no reader;
+   None = the step failed.  l_meaning: the canonical entry terms of parse_ledger(text) and of
+   parse_ledger(l_file) are equal (compared by the harness: the parser model is too slow at
+   this length, see the evidence assumptions).  l_formatted: the text is itself a fixed point
+   of the in-memory printing. *)
+Record lcase := {
+  l_dict : list (list N);
+  l_text : list N;
+  l_formatted : bool;
+  l_ref : option (list N);
+  l_file : option (list N);
+  l_again : option (list N);
+  l_reads : list (N * option (list N));
+  l_meaning : bool
+}.
+
+Inductive case := Short (c : tcase) | Long (l : lcase) | LCrash | LHarness.
 
 (* ---- comparison with the model ---- *)
 Definition span_eqb (a b : span) : bool := (fst a =? fst b) && (snd a =? snd b).
@@ -65,10 +90,48 @@ Definition format_ok (o : obs) (f : fobs) : bool :=
 Definition crashed (o : obs) : bool :=
   match o with OPanic | OTimeout | OAbort _ => true | _ => false end.
 
-Definition spec_holds (c : case) : bool :=
+Definition spec_holds (c : tcase) : bool :=
   (negb (c_doc c) || accepted (c_obs c)) && format_ok (c_obs c) (c_fmt c).
 
-Definition classify (c : case) : N :=
+(* ---- long files ---- *)
+Definition expand (dict : list (list N)) (ix : list N) : list N :=
+  flat_map (fun i => nth (N.to_nat i) dict [] ++ [10]) ix.
+
+(* equal line numbers give equal bytes whatever the dictionary holds; only when the numbers
+   differ are the bytes written out and compared (the branches of `if` are evaluated lazily) *)
+Definition same_text (dict : list (list N)) (a b : list N) : bool :=
+  if list_eqb N.eqb a b then true else str_eqb (expand dict a) (expand dict b).
+
+Definition out_is (dict : list (list N)) (want : list N) (o : option (list N)) : bool :=
+  match o with Some ix => same_text dict ix want | None => false end.
+
+(* the property on what the command did: the formatted file has the entries of the file,
+   formatting the output again returns it unchanged, and an already formatted file is
+   returned unchanged *)
+Definition long_spec (l : lcase) : bool :=
+  match l_file l with
+  | Some f =>
+      l_meaning l && out_is (l_dict l) f (l_again l) &&
+      (negb (l_formatted l) || same_text (l_dict l) f (l_text l))
+  | None => false
+  end.
+
+(* the reading glue: whatever the reader hands out per call, the output is the printing of the
+   entries of the text *)
+Definition long_agree (l : lcase) : bool :=
+  match l_ref l with
+  | Some r =>
+      out_is (l_dict l) r (l_file l) && forallb (fun p => out_is (l_dict l) r (snd p)) (l_reads l)
+  | None => false
+  end.
+
+Definition classify_long (l : lcase) : N :=
+  match l_ref l with
+  | None => 9                      (* the generator only keeps texts that parse *)
+  | Some _ => if negb (long_spec l) then 2 else if long_agree l then 0 else 1
+  end.
+
+Definition classify_short (c : tcase) : N :=
   match c_obs c with
   | OHarness => 9
   | _ =>
@@ -81,6 +144,14 @@ Definition classify (c : case) : N :=
         end in
       if negb (spec_holds c) then 2
       else if agree then 0 else 1
+  end.
+
+Definition classify (c : case) : N :=
+  match c with
+  | Short t => classify_short t
+  | Long l => classify_long l
+  | LCrash => 2                    (* the command or the formatter crashed or hung on a long file *)
+  | LHarness => 9
   end.
 
 Definition verdicts (cs : list case) : list N := map classify cs.
